@@ -183,6 +183,11 @@ def systematic_members(kinds):
             for dl in (0, 4):
                 for pad in (0, 4):
                     out.append('app %d 305419896 %d %s %s' % (pad, 31 if nl == 4 else nl, '41' * nl if nl else '-', 'c3' * dl if dl else '-'))
+    if 'app' in kinds:
+        # a zero byte is an ordinary ASCII character of the name (not a terminator, not invalid)
+        for name in ('00', '610062', '61626300', '00787a79', '00000000', '6100', '7f007f00'):
+            out.append('app 0 1 %d %s 01020304' % (len(name) % 32, name))
+            out.append('app 4 4294967295 0 %s -' % name)
     if 'bye' in kinds:
         for ns in (0, 1, 2, 31):
             for rl in (0, 1, 2, 3, 4, 5, 254, 255):
@@ -571,6 +576,20 @@ def carry_tiles(g):
         out.append('parse packet %s' % hx(tile))
     return out
 
+def version_tiles(g):
+    """well-tiled compounds whose first, middle or last tile has version 0, 1 or 3, for known and unknown packet
+    types: the iteration must yield what the generic parser yields for that tile (an error) and stop"""
+    out = []
+    rr = bytes([0x80, 201, 0, 1]) + g.rawbytes(4)
+    bye = bytes([0x81, 203, 0, 1]) + g.rawbytes(4)
+    for pt in (242, 0, 255, 199, 207, 201, 204):
+        for ver in (0, 1, 3):
+            tile = bytes([(ver << 6) | 1, pt, 0, 2]) + g.rawbytes(8)
+            for b in (rr + tile + bye, tile + bye, rr + tile):
+                out.append('parse compound %s' % hx(b))
+            out.append('parse packet %s' % hx(tile))
+    return out
+
 def rpsi_pb_sweep():
     """raw RPSI control information of 4 and 8 bytes with every padding-bit count around the body length"""
     out = []
@@ -629,7 +648,7 @@ def sdes_pad_sweep():
 def gen_parse_mixed(g, h, n, tier):
     """inputs for every parsing entry point: valid images, mutations, raw random bytes, cross-entry"""
     out = sdes_pad_sweep()
-    extra = carry_tiles(g) + rpsi_pb_sweep() + fmt_sweep(g)
+    extra = carry_tiles(g) + version_tiles(g) + rpsi_pb_sweep() + fmt_sweep(g)
     out += [l.replace('parse sdes ', 'parse packet ', 1) for l in out[::3]] + [l.replace('parse sdes ', 'parse compound ', 1) for l in out[1::3]]
     out += extra
     pairs = gen_parse_inputs(g, h, n, malformed_ratio=0.5)
